@@ -30,16 +30,20 @@ const DOC_MAX_AIRDROP: u128 = 100_000_000_000_000; // 100 million STARS
 const DOC_INSTANTIATION_FEE: u128 = 100_000_000; // 100 STARS
 const DOC_MAX_PLAINTEXT: usize = 1000;
 
+/// a byte string as the Coq term `(P len [chunks])`: seven bytes per primitive integer
 fn coq_bytes(b: &[u8]) -> String {
-    let mut s = String::with_capacity(b.len() * 4 + 2);
-    s.push('[');
-    for (i, x) in b.iter().enumerate() {
+    let mut s = format!("(P {} [", b.len());
+    for (i, ch) in b.chunks(7).enumerate() {
+        let mut v: u64 = 0;
+        for k in 0..7 {
+            v = (v << 8) | *ch.get(k).unwrap_or(&0) as u64;
+        }
         if i > 0 {
             s.push_str("; ");
         }
-        s.push_str(&x.to_string());
+        s.push_str(&v.to_string());
     }
-    s.push(']');
+    s.push_str("]%uint63)");
     s
 }
 fn coq_obytes(b: &Option<Vec<u8>>) -> String {
@@ -66,6 +70,9 @@ fn eth_identity(s: &str) -> Option<Vec<u8>> {
 
 #[derive(Default)]
 pub struct Outcome {
+    /// vernacular: one `Definition <name>_s<i> : c16_step := ...` per call (a single huge
+    /// term makes the elaborator's evar map grow quadratically)
+    pub defs: Vec<String>,
     pub coq: String,
     pub built: bool,
     pub steps: u64,
@@ -76,7 +83,7 @@ pub struct Outcome {
     pub sample: Option<serde_json::Value>,
 }
 
-pub fn run_case(case: &Case) -> Outcome {
+pub fn run_case(case: &Case, name: &str) -> Outcome {
     let spec = &case.spec;
     let mut out = Outcome::default();
     let built = build(spec);
@@ -241,8 +248,10 @@ pub fn run_case(case: &Case) -> Outcome {
             out.sample = Some(serde_json::json!({"world": case.label, "op": op, "impl_ok": ok, "independent_verifier_accepts": ind_valid,
                 "claimant_balance": after_sender.to_string(), "contract_balance": after_air.to_string(), "whitelisted": member, "raw_count": count}));
         }
-        steps_coq.push(format!(
-            "Claim {} {} {} (mkOracle {} {} {} {} {} {} {} {} {} {}) {} {} {} {} {} {} {}",
+        out.defs.push(format!(
+            "Definition {}_s{} : c16_step := Claim {} {} {} (mkOracle {} {} {} {} {} {} {} {} {} {}) {} {} {} {} {} {} {}.",
+            name,
+            i,
             coq_bytes(op.sender.as_bytes()),
             coq_bytes(op.eth_address.as_bytes()),
             coq_bytes(op.eth_sig.as_bytes()),
@@ -267,6 +276,7 @@ pub fn run_case(case: &Case) -> Outcome {
             },
             nm
         ));
+        steps_coq.push(format!("{}_s{}", name, i));
     }
     // total-paid accounting
     let held: u128 = senders.iter().map(|s| w.balance(s)).sum();
@@ -754,7 +764,7 @@ fn shrink(case: &Case, key: &str) -> Case {
     while i < cur.ops.len() {
         let mut t = cur.clone();
         t.ops.remove(i);
-        if run_case(&t).violations.iter().any(|(k, _)| k == key) {
+        if run_case(&t, "x").violations.iter().any(|(k, _)| k == key) {
             cur = t;
         } else {
             i += 1;
@@ -778,11 +788,12 @@ pub fn run(a: &Args) {
         gen_cases(a)
     };
     let mut coq_cases = Vec::with_capacity(cases.len());
+    let mut all_defs: Vec<Vec<String>> = Vec::with_capacity(cases.len());
     let mut distinct: BTreeSet<(String, String, String, String)> = BTreeSet::new();
     let mut nviol = 0u64;
     let mut seen_keys: BTreeSet<String> = BTreeSet::new();
     for (ci, c) in cases.iter().enumerate() {
-        let o = run_case(c);
+        let o = run_case(c, &format!("w{}", ci));
         rep.evaluations += o.steps;
         let world_kind = c.label.split(':').next().unwrap_or("world").to_string();
         rep.bump(&format!("world:{}:{}", world_kind, if o.built { "built" } else { "instantiate-rejected" }));
@@ -813,10 +824,35 @@ pub fn run(a: &Args) {
             }
         }
         coq_cases.push(o.coq);
+        all_defs.push(o.defs);
     }
     rep.distinct_nontrivial = distinct.len() as u64;
     rep.rule = "one evaluation = one ClaimAirdrop executed on the real contracts (or one rejected airdrop instantiate). Worlds: curated corpus, instantiate bounds (amount/fee/template/list), every recovery byte (thorough; accepted values, neighbours, harvested literals and a sample in quick), signature length/encoding shapes, single-bit flips in r/s/v, limit boundaries on every template with interleaved addresses and replays, random histories (~75 % valid), malformed stream. Non-trivial = distinct (world, sender, eth address, signature) whose address string is on the list and whose signature decodes to 65 bytes, i.e. the call reached signature verification.".into();
-    out.write_cases("C16", "From LP Require Import Airdrop C16Corr.", "c16_case", "c16_check", &coq_cases, 6, &mut rep);
+    // one file per shard, each with the step definitions of its own worlds in the header
+    let shards = 6usize.min(coq_cases.len().max(1));
+    let total: usize = all_defs.iter().map(|d| d.len() + 1).sum();
+    let mut lo = 0usize;
+    for sh in 0..shards {
+        // balance by number of calls, not by number of worlds
+        let mut hi = lo;
+        let mut acc = 0usize;
+        while hi < coq_cases.len() && (acc < (total + shards - 1) / shards || sh + 1 == shards) {
+            acc += all_defs[hi].len() + 1;
+            hi += 1;
+        }
+        if lo >= hi {
+            break;
+        }
+        let mut header = String::from("From Coq Require Import Uint63. From LP Require Import Airdrop C16Corr.\nLocal Open Scope N_scope.\n");
+        for d in &all_defs[lo..hi] {
+            for l in d {
+                header.push_str(l);
+                header.push('\n');
+            }
+        }
+        out.write_cases(&format!("C16_{}", sh), header.trim_end(), "c16_case", "c16_check", &coq_cases[lo..hi], 1, &mut rep);
+        lo = hi;
+    }
     out.finish(&rep);
     println!("C16 harness: {} worlds, {} calls, {} monitor violations", cases.len(), rep.evaluations, nviol);
 }
